@@ -1,0 +1,55 @@
+//go:build verif
+
+// Package verifhook marks a few points in the code where the verification harness (build tag
+// "verif") can observe or delay execution. Without the tag the calls are empty and inlined.
+package verifhook
+
+import (
+	"context"
+	"sync"
+	"sync/atomic"
+)
+
+// Func is called at a marked point with the context that reached it.
+type Func func(ctx context.Context, site string)
+
+var (
+	lock  sync.RWMutex
+	funcs = make(map[string]Func)
+	hits  sync.Map // site -> *int64
+)
+
+// Set installs (or with nil removes) the function called at a site. "*" matches every site.
+func Set(site string, f Func) {
+	lock.Lock()
+	defer lock.Unlock()
+	if f == nil {
+		delete(funcs, site)
+	} else {
+		funcs[site] = f
+	}
+}
+
+// Hits returns how often a site was reached.
+func Hits(site string) int64 {
+	if v, ok := hits.Load(site); ok {
+		return atomic.LoadInt64(v.(*int64))
+	}
+	return 0
+}
+
+// At marks a named point in the code.
+func At(ctx context.Context, site string) {
+	v, _ := hits.LoadOrStore(site, new(int64))
+	atomic.AddInt64(v.(*int64), 1)
+
+	lock.RLock()
+	f := funcs[site]
+	if f == nil {
+		f = funcs["*"]
+	}
+	lock.RUnlock()
+	if f != nil {
+		f(ctx, site)
+	}
+}
